@@ -56,6 +56,8 @@ type c11Behaviour struct {
 	LoseCount int    `json:"lose_count,omitempty"`
 	LoseWhat  string `json:"lose_what,omitempty"` // "" = the query never reaches the server | "answer" = the server acts on it, its answer is lost
 	DataSeed  int64  `json:"data_seed"`
+	// query names may only consist of host-name characters (letters, digits, '-'): drop | replace
+	Ldh string `json:"hostname_characters_only,omitempty"`
 	// host names inside answers (CNAME, MX, SRV targets) come back lower- / upper-cased
 	AnswerCase string `json:"answer_case,omitempty"`
 	// the tunnel domain, when it is not the usual t.example.org (the length of the domain decides how much room the probes
@@ -145,6 +147,9 @@ func (b *c11Behaviour) Class() string {
 	if b.LoseCmd != "" {
 		p = append(p, fmt.Sprintf("negotiation-loses-%s%s#%d+%d", b.LoseWhat, b.LoseCmd, b.LoseFrom, b.LoseCount))
 	}
+	if b.Ldh != "" {
+		p = append(p, "hostname-characters-only="+b.Ldh)
+	}
 	if b.AnswerCase != "" {
 		p = append(p, "answer-names="+b.AnswerCase)
 	}
@@ -177,11 +182,13 @@ const (
 	c11ServerSilent             // loss: the server itself sent nothing (onMessage error / pack failure)
 	c11QLostOnce                // loss: a query of the negotiation lost by the transient fault
 	c11AnsCase                  // rewrite: letters of the host names in an answer's record data changed case
-	c11RewriteMask  = c11CaseChanged | c11HiReplaced | c11EdnsStripped | c11AnsCase
+	c11LdhReplaced              // rewrite: octets other than letters, digits and '-' replaced by '-'
+	c11QDropLdh                 // loss: query whose name has octets other than letters, digits and '-' dropped
+	c11RewriteMask  = c11CaseChanged | c11HiReplaced | c11EdnsStripped | c11AnsCase | c11LdhReplaced
 )
 
 var c11FateNames = []string{"case-changed", "8bit-replaced", "edns0-stripped", "query-dropped(8bit)", "query-dropped(type)",
-	"answer-nxdomain(type)", "answer-empty(type)", "answer-dropped(size)", "answer-truncated(size)", "server-sent-nothing", "negotiation-query-lost(transient)", "answer-host-names-case-changed"}
+	"answer-nxdomain(type)", "answer-empty(type)", "answer-dropped(size)", "answer-truncated(size)", "server-sent-nothing", "negotiation-query-lost(transient)", "answer-host-names-case-changed", "non-hostname-octets-replaced", "query-dropped(non-hostname-octets)"}
 
 func c11FateClass(bits int) string {
 	if bits&^c11RewriteMask != 0 {
@@ -386,7 +393,7 @@ func (p *c11Path) Query(q *mdns.Msg) *mdns.Msg {
 	if len(wire) > p.maxQuery {
 		p.maxQuery = len(wire)
 	}
-	hi, drop := false, false
+	hi, drop, nonLdh := false, false, false
 	c11MangleNames(wire, func(w []byte, idx [][2]int) {
 		// 0x20 mixing is a function of the (case-folded) name, so the path is deterministic per message
 		var h uint64
@@ -403,6 +410,15 @@ func (p *c11Path) Query(q *mdns.Msg) *mdns.Msg {
 		for _, r := range idx {
 			for i := r[0]; i < r[1]; i++ {
 				c := w[i]
+				if b.Ldh != "" && !((c >= 'a' && c <= 'z') || (c >= 'A' && c <= 'Z') || (c >= '0' && c <= '9') || c == '-') {
+					// a resolver that only lets host names through (letters, digits, hyphen)
+					nonLdh = true
+					if b.Ldh == "replace" {
+						w[i] = '-'
+						fate |= c11LdhReplaced
+					}
+					continue
+				}
 				switch {
 				case c >= 0x80:
 					hi = true
@@ -440,6 +456,10 @@ func (p *c11Path) Query(q *mdns.Msg) *mdns.Msg {
 	if hi && b.SevenBit == "drop" {
 		drop = true
 		fate |= c11QDropHi
+	}
+	if nonLdh && b.Ldh == "drop" {
+		drop = true
+		fate |= c11QDropLdh
 	}
 	if drop {
 		p.push(fate)
@@ -1195,6 +1215,19 @@ func c11Behaviours(rec *vcommon.Rec) []*c11Behaviour {
 			}
 		}
 	}
+	// resolvers that only let host names through: every octet other than a letter, a digit or '-' makes the query fail (or is
+	// replaced), case is preserved or folded
+	for _, l := range []string{"drop", "replace"} {
+		add(c11Behaviour{Ldh: l})
+		add(c11Behaviour{Ldh: l, Case: "lower"})
+		add(c11Behaviour{Ldh: l, Case: "random"})
+		add(c11Behaviour{Ldh: l, StripEdns: true})
+		add(c11Behaviour{Ldh: l, Limit: 1024, Oversize: "drop"})
+		add(c11Behaviour{Ldh: l, AnswerCase: "lower"})
+		for i, ts := range [][]string{{"TXT"}, {"CNAME"}, {"MX", "A"}, {"SRV", "TXT"}, {"NULL"}, {"PRIVATE", "AAAA"}} {
+			add(c11Behaviour{Ldh: l, Types: ts, Refuse: refuses[i%3]})
+		}
+	}
 	// resolvers that normalise the case of host names in the answers they hand out, alone and together with case folding of
 	// the query names, on paths where host-name records are what is left
 	for _, ac := range []string{"lower", "upper"} {
@@ -1242,7 +1275,7 @@ func c11Behaviours(rec *vcommon.Rec) []*c11Behaviour {
 				add(b)
 			}
 		}
-		for len(out) < 980 {
+		for len(out) < 1010 {
 			add(random())
 		}
 	}
